@@ -23,22 +23,22 @@ PROP = dict(
     ],
     jobs=dict(
         quick=[
-            job("brontide", "^TestVerifC11Handshake$", ["TestVerifC11Handshake"], 400, shards=2),
-            job("brontide", "^TestVerifC11ConnHandshake$", ["TestVerifC11ConnHandshake"], 4000, shards=2),
-            job("brontide", "^TestVerifC11Transport$", ["TestVerifC11Transport"], 300, shards=5),
-            job("brontide", "^TestVerifC11Tamper$", ["TestVerifC11Tamper"], 2500, shards=4),
-            job("brontide", "^TestVerifC11Conn$", ["TestVerifC11Conn"], 600, shards=3),
+            job("brontide", "^TestVerifC11Handshake$", ["TestVerifC11Handshake"], 300, shards=2),
+            job("brontide", "^TestVerifC11ConnHandshake$", ["TestVerifC11ConnHandshake"], 3000, shards=2),
+            job("brontide", "^TestVerifC11Transport$", ["TestVerifC11Transport"], 220, shards=5),
+            job("brontide", "^TestVerifC11Tamper$", ["TestVerifC11Tamper"], 1800, shards=4),
+            job("brontide", "^TestVerifC11Conn$", ["TestVerifC11Conn"], 450, shards=3),
         ],
         thorough=[
-            job("brontide", "^TestVerifC11Handshake$", ["TestVerifC11Handshake"], 1500, shards=3, timeout=900),
-            job("brontide", "^TestVerifC11ConnHandshake$", ["TestVerifC11ConnHandshake"], 20000, shards=2, timeout=900),
-            job("brontide", "^TestVerifC11Transport$", ["TestVerifC11Transport"], 400, shards=5, timeout=900,
+            job("brontide", "^TestVerifC11Handshake$", ["TestVerifC11Handshake"], 1200, shards=3, timeout=900),
+            job("brontide", "^TestVerifC11ConnHandshake$", ["TestVerifC11ConnHandshake"], 15000, shards=2, timeout=900),
+            job("brontide", "^TestVerifC11Transport$", ["TestVerifC11Transport"], 300, shards=5, timeout=900,
                 env=dict(VERIF_C11_STEPS=120, VERIF_C11_MAXMSG=10000)),
-            job("brontide", "^TestVerifC11Tamper$", ["TestVerifC11Tamper"], 20000, shards=3, timeout=900),
-            job("brontide", "^TestVerifC11Conn$", ["TestVerifC11Conn"], 2000, shards=2, timeout=900,
+            job("brontide", "^TestVerifC11Tamper$", ["TestVerifC11Tamper"], 15000, shards=3, timeout=900),
+            job("brontide", "^TestVerifC11Conn$", ["TestVerifC11Conn"], 1500, shards=2, timeout=900,
                 env=dict(VERIF_C11_CONN_STEPS=30)),
             job("brontide", "^FuzzVerifC11Plan$", ["FuzzVerifC11Plan"], 0, shards=1, timeout=900,
-                fuzz="^FuzzVerifC11Plan$", fuzztime="150s", parallel=4),
+                fuzz="^FuzzVerifC11Plan$", fuzztime="120s", parallel=4),
         ],
     ),
 )
